@@ -109,6 +109,8 @@ let run_leaf toks =
   | ["ideal"; md; nt; a; b] ->
     let thr = if Zr.equal (z md) Zr.zero then threshold (z "10000000") (z b) else z md in
     pr (idealNumThreads thr (z nt) (z a) (z b))
+  | ["asp30"; stop; p; low] -> (match addSievingPrime30 (z stop) (z p) (z low) with Some (m, w) -> pr m ^ " " ^ pr w | None -> "none")
+  | ["asp210"; stop; p; low] -> (match addSievingPrime210 (z stop) (z p) (z low) with Some (m, w) -> pr m ^ " " ^ pr w | None -> "none")
   | ["nbuf"; pcu; a; b] -> let (c, s) = next_buffer (z pcu) (z a) (z b) in pr c ^ " " ^ pr s
   | ["is_prime"; x] -> if is_prime (z x) then "1" else "0"
   | ["mr"; x] -> if mr (z x) then "1" else "0"
